@@ -116,6 +116,17 @@ CLAIMED["C10"] = dict(
          "size (shorter ones are neglected by design); negative numeric past coefficients are a listed finding.",
     design_ref="DESIGN.md §4 C10")
 
+CLAIMED["C12"] = dict(
+    technique="Hypothesis-generated scalar models; differential of get_jacobian_func against 5-point central "
+              "differences of the compiled get_run_func function (history perturbation for delayed models)",
+    text="Every entry of the returned Jacobian (dense and sparse) must equal the central difference of the compiled "
+         "vector field at random states; for delayed models J0 and the history Jacobians are compared with differences "
+         "w.r.t. y and w.r.t. the value the history returns at t-tau.",
+    note="Entries at which two difference step sizes disagree (kinks) are skipped; functions whose differentiation is a "
+         "listed known finding (sin/cos/sinh/cosh imports; arcsin/arccos/arctan/absv silently 0) are excluded and "
+         "counted; DFDU/DFDP are C18's subject.",
+    design_ref="DESIGN.md §4 C12")
+
 NOT_YET = {}
 
 
